@@ -104,7 +104,7 @@ class Family(object):
                 return False
             if isinstance(val, refval.Raw) and val.text == '':
                 return False
-            if isinstance(val, refval.Raw) and val.text == 'maybe':
+            if isinstance(val, refval.Raw) and (val.text == 'maybe' or getattr(val, 'kind', None) == 'Boolean'):
                 return False      # HttpRpc documents HTML form semantics for booleans (checked/on; anything else is off)
         return True
 
@@ -236,6 +236,8 @@ def mech(who, fam, facets, lt, label, pos):
     kind = gen.shape(lt)[:28] if lt else ''
     if who == 'accepted_invalid' and facets == ['min_occurs'] and lt and 'array' in lt and fam in ('json', 'yaml', 'msgpack', 'httprpc'):
         return 'dictdoc_array_min_occurs_not_enforced'
+    if who == 'accepted_invalid' and facets == ['lexical'] and label in ('lexical_spelling_other_case', 'lexical_spelling_python_float'):
+        return 'lenient_spelling_accepted:%s' % label[len('lexical_spelling_'):]
     return '%s:%s:%s:%s' % (who, fam, '+'.join(facets) or label.split('_')[0], kind)
 
 
